@@ -54,6 +54,7 @@ SPEC = {
         {"name": "ripser", "src": _SRC, "variant": "asan", "configs": _CONFIGS, "chunk": 25},
     ],
     "floors": {"quick": _QF, "thorough": _TF},
+    "timeout": {"quick": 900, "thorough": 7200},
     "exhaustive": {"quick": False, "thorough": False},
     "manifest": {
         "text": "Runtime monitor: thousands of random small dissimilarities (ties, non-metric, duplicate points, spheres, a flag projective plane "
